@@ -54,7 +54,7 @@ theorem renameFile_root_final (W : ImgTreeW d up (.dir slots ch) cl) (hwf : Tree
   unfold renameInternalS at hnh ⊢
   cases hdn : (isDotName sname || isDotName dname) with
   | true =>
-    simp only [hdn, if_true]
+    simp only [if_true]
     exact rename_dot_fails env _ _ sname dname hdn d4
   | false =>
     have hdots : (sname = "." || sname = ".." || dname = "." || dname = "..") = false := by
@@ -63,7 +63,7 @@ theorem renameFile_root_final (W : ImgTreeW d up (.dir slots ch) cl) (hwf : Tree
     simp only [hdn, Bool.false_eq_true, if_false, getAtS] at hnh ⊢
     cases hx : lookupS up slots ch sname with
     | none =>
-      simp only [hx]
+      simp only
       have hf := lookupS_none hd hx
       rw [hf] at hlk
       refine (DirView.ofRoot hR).rename_src_fails_sim env sname dname _ hdots .notFound ?_ d4 (SameVol.refl d4)
@@ -120,7 +120,7 @@ theorem renameFile_root_final (W : ImgTreeW d up (.dir slots ch) cl) (hwf : Tree
           cases heq : (e == x.1) with
           | true =>
             have hex : e = x.1 := by simpa using heq
-            simp only [samePathS, prefixS, List.length_nil, BEq.rfl, Bool.and_self, Bool.true_and, if_true, outErr, done]
+            simp only [samePathS, prefixS, List.length_nil, BEq.rfl, Bool.and_self, if_true, outErr, done]
             obtain ⟨d', hr, hs⟩ := o1 (by rw [hex]; rfl)
             exact ⟨(), d', hr, VolStep.of_sameVol (hv.trans hs), W.of_sameVol (hv.trans hs)⟩
           | false =>
